@@ -241,7 +241,7 @@ def sink_operand(sink, which):
     return None
 
 
-def leaves(fn, steps, depth=0):
+def leaves(fn, steps, depth=0, expanding=()):
     """expand aggregates (ranges, tuples) and `x + const` / `x - const` into leaf origins:
     -> list of (steps, offset) ; offset is the accumulated constant added to the leaf"""
     if not steps or depth > 4:
@@ -250,17 +250,50 @@ def leaves(fn, steps, depth=0):
     if last[0] == "agg":
         out = []
         for op in last[1][2]:
-            out += leaves(fn, fn.origin(op), depth + 1)
+            out += leaves(fn, fn.origin(op), depth + 1, expanding)
         return out
+    if last[0] == "multi" and not last[2] and last[1] in expanding:
+        return [(("self", last[1]), 0)]
+    if last[0] == "multi" and not last[2]:
+        # a mutable counter: every definition, self-references (x = x - 1) contribute their offset only
+        local = last[1]
+        expanding = expanding + (local,)
+        out = []
+        for (dbb, si, dk, payload) in fn.defs().get(local, []):
+            if fn.is_cleanup(dbb):
+                continue
+            if dk == "assign" and not payload["p"][1]:
+                r = payload["r"]
+                sub = fn.origin(r[1]) if r[0] == "use" else [(r[0], r, [])]
+                for st, off in leaves(fn, sub, depth + 1, expanding):
+                    if st == ("self", local):
+                        out.append((("self",), off))
+                    else:
+                        out.append((st, off))
+            elif dk == "call":
+                out.append(([("call", Call(fn, dbb, payload, False), [])], 0))
+            else:
+                out.append(([("other", payload, [])], 0))
+        base = [(st, off) for st, off in out if st != ("self",)]
+        selfoffs = [off for st, off in out if st == ("self",)]
+        if base:
+            lo = min([0] + selfoffs)
+            hi = max([0] + selfoffs)
+            res = []
+            for st, off in base:
+                res.append((st, off + lo))
+                if hi != lo:
+                    res.append((st, off + hi))
+            return res
     if last[0] == "bin" and last[1][1] in ("Add", "AddWithOverflow", "AddUnchecked", "Sub", "SubWithOverflow", "SubUnchecked"):
         a, b = fn.origin(last[1][2]), fn.origin(last[1][3])
         sign = 1 if last[1][1].startswith("Add") else -1
         cb = const_int(b[-1][1]) if b and b[-1][0] == "const" else None
         ca = const_int(a[-1][1]) if a and a[-1][0] == "const" else None
         if cb is not None:
-            return [(st, off + sign * cb) for st, off in leaves(fn, a, depth + 1)]
+            return [(st, off + sign * cb) for st, off in leaves(fn, a, depth + 1, expanding)]
         if ca is not None and sign == 1:
-            return [(st, off + ca) for st, off in leaves(fn, b, depth + 1)]
+            return [(st, off + ca) for st, off in leaves(fn, b, depth + 1, expanding)]
     return [(steps, 0)]
 
 
@@ -441,7 +474,7 @@ def verify(prog, fn, bb, sink, spec, _facts_override=None):
             return False, "operand %s is not a length: %s" % (spec["which"], describe_origin(fn, steps))
         if "max_offset" in spec:
             lv = [(st, off) for st, off in leaves(fn, steps) if not (st and st[-1][0] == "const")]
-            if lv and all(origin_matches(fn, st, spec["from"]) and 0 <= off <= spec["max_offset"] for st, off in lv):
+            if lv and all(origin_matches(fn, st, spec["from"]) and spec.get("min_offset", 0) <= off <= spec["max_offset"] for st, off in lv):
                 steps = lv[0][0]
             else:
                 return False, "operand %s: leaves %s do not all derive from %s (+<=%d)" % (spec["which"], [(describe_origin(fn, st), off) for st, off in lv], spec["from"], spec["max_offset"])
@@ -550,6 +583,65 @@ def verify(prog, fn, bb, sink, spec, _facts_override=None):
                     if ok and bb not in fn.reachable_from(sx):
                         return True, "validation: once `%s`, the operation is unreachable (switch bb%d)" % (how.replace("dominated by ", ""), d)
         return False, "no validation branch rejecting `%s %s`" % (want.get("op"), want.get("const"))
+    if k == "enum_index":
+        # IndexMap<N, V>::op(self, E as usize): E is an enum with <= N variants
+        op = sink_operand(sink, spec["which"])
+        c = sink.payload
+        steps = fn.origin(op) if op is not None else None
+        ety = None
+        if steps:
+            last = steps[-1]
+            if last[0] == "discr":
+                ety = fn.place_ty(last[1])
+            else:
+                # `copy _x as usize (IntToInt)` directly on the enum local
+                for st in steps:
+                    if st[0] == "via" and st[1][0].startswith("cast:IntToInt"):
+                        ety = fn.place_ty(st[1][1])
+                if ety is None and last[0] in ("arg", "multi", "call"):
+                    ety = None
+        if ety is None:
+            return False, "index operand is not an enum discriminant cast (%s)" % describe_origin(fn, steps)
+        names = prog.variant_names(ety)
+        recv_ty = fn.place_ty(op_place(c.args[0])) if op_place(c.args[0]) is not None else ""
+        rsteps = fn.origin(c.args[0])
+        n = None
+        for cand in [recv_ty] + [fn.place_ty(s[1][1]) for s in rsteps if s[0] == "via"] + c.targs:
+            m = re.search(r"IndexMap<(\d+)(_usize)?,", cand or "")
+            if m:
+                n = int(m.group(1))
+                break
+        if n is None and c.targs and re.fullmatch(r"\d+(_usize)?", c.targs[0] or ""):
+            n = int(c.targs[0].split("_")[0])
+        if not names or n is None:
+            return False, "cannot determine variant count of %s (%d) or N of the map (%s)" % (ety, len(names), n)
+        if len(names) <= n:
+            return True, "index = `%s as usize`, %d variants <= N = %d" % (ety.rsplit("::", 1)[-1], len(names), n)
+        return False, "enum %s has %d variants but the map has N = %d slots" % (ety, len(names), n)
+    if k == "range_index":
+        # `for i in 0..N { .. op(i) }`: the index is the payload of Range::next
+        op = sink_operand(sink, spec["which"])
+        steps = fn.origin(op) if op is not None else None
+        if steps and steps[-1][0] == "call" and re.search(r"Range<.*Iterator>::next$", steps[-1][1].callee or ""):
+            return True, "index is produced by a Range iterator (loop index)"
+        return False, "index is not a range loop variable (%s)" % describe_origin(fn, steps)
+    if k == "utf8_checked":
+        # on every path to this block a from_utf8-style validation (regex `call`) succeeded
+        rx = spec.get("call", r"core::str::converts::from_utf8$")
+        n = 0
+        for f in facts:
+            if f.kind == "variant" and f.allowed in ({"Ok"}, {"Continue"}) and f.steps and f.steps[-1][0] == "call" and re.search(rx, f.steps[-1][1].callee or ""):
+                if not any(pr[0] in ("dc", "f") for st in f.steps for pr in (st[2] if len(st) > 2 else [])):
+                    n += 1
+        if n >= spec.get("min", 1):
+            return True, "dominated by %d successful /%s/ validation(s)" % (n, rx.rsplit("::", 1)[-1])
+        return False, "not dominated by a successful /%s/ validation (found %d, need %d)" % (rx, n, spec.get("min", 1))
+    if k == "const_ascii":
+        op = sink_operand(sink, spec["which"])
+        steps = fn.origin(op) if op is not None else None
+        if steps and steps[-1][0] == "const" and "b" in steps[-1][1] and all(x < 128 for x in steps[-1][1]["b"]):
+            return True, "operand is the ASCII literal %r" % steps[-1][1].get("s")
+        return False, "operand is not an ASCII byte-string literal (%s)" % describe_origin(fn, steps)
     if k == "in_unsafe_fn":
         if fn.unsafe:
             return True, "inside `unsafe fn %s`: obligation moves to its call sites" % fn.name
